@@ -665,6 +665,31 @@ let coq_clist (l : clist) =
 let coq_lop = function
   | LInsert (i, v) -> "(LInsert " ^ coq_lident i ^ " " ^ coq_n v ^ ")"
   | LDelete (i, d) -> "(LDelete " ^ coq_lident i ^ " " ^ coq_dot d ^ ")"
+(* MerkleReg and codec values as Coq terms *)
+let coq_nset s = "(nset_of_list " ^ coq_nlist (nset_to_list s) ^ ")"
+let coq_mnode nd = "(MNode " ^ coq_nset nd.nchildren ^ " " ^ coq_n nd.nvalue ^ ")"
+let coq_nodemap m = "(nmap_of_list [" ^ String.concat "; " (List.map (fun (h, nd) -> "(" ^ coq_n h ^ ", " ^ coq_mnode nd ^ ")") (nmap_to_list m)) ^ "])"
+let coq_merkle s = "(Merkle " ^ coq_nset s.mk_roots ^ " " ^ coq_nodemap s.mk_dag ^ " " ^ coq_nodemap s.mk_orphans ^ ")"
+let ocaml_string_of (s : Model.string) : string =
+  let b = Buffer.create 16 in
+  let rec go = function
+    | EmptyString -> ()
+    | String (Ascii (b0, b1, b2, b3, b4, b5, b6, b7), r) ->
+        let bit x i = if x then 1 lsl i else 0 in
+        Buffer.add_char b (Char.chr (bit b0 0 + bit b1 1 + bit b2 2 + bit b3 3 + bit b4 4 + bit b5 5 + bit b6 6 + bit b7 7)); go r in
+  go s; Buffer.contents b
+let coq_str s =
+  let o = ocaml_string_of s in
+  String.iter (fun c -> if not ((c >= 'a' && c <= 'z') || (c >= 'A' && c <= 'Z') || (c >= '0' && c <= '9') || c = '_' || c = '-' || c = ' ') then bad "string") o;
+  "\"" ^ o ^ "\"%string"
+let rec coq_json = function
+  | JNull -> "JNull"
+  | JBool b -> "(JBool " ^ string_of_bool b ^ ")"
+  | JNum z -> "(JNum (" ^ coq_z z ^ ")%Z)"
+  | JStr s -> "(JStr " ^ coq_str s ^ ")"
+  | JArr l -> "(JArr [" ^ String.concat "; " (List.map coq_json l) ^ "])"
+  | JObj l -> "(JObj [" ^ String.concat "; " (List.map (fun (k, j) ->
+      "(" ^ (match k with KField s -> "KField " ^ coq_str s | KNum n -> "KNum " ^ coq_n n) ^ ", " ^ coq_json j ^ ")") l) ^ "])"
 let coq_ord = function None -> "None" | Some Lt -> "(Some Lt)" | Some Eq -> "(Some Eq)" | Some Gt -> "(Some Gt)"
 let coq_case (f : string) (a : sx list) : string option =
   try
@@ -683,6 +708,23 @@ let coq_case (f : string) (a : sx list) : string option =
          Some ("bool_decide (l_apply " ^ coq_clist (clist_sx s) ^ " " ^ coq_lop (lop_sx o) ^ " = Some " ^ coq_clist (clist_sx r) ^ ")")
      | "list.insert_index", [s; ix; v; act; o] ->
          Some ("bool_decide (l_insert_index " ^ coq_clist (clist_sx s) ^ " " ^ string_of_int (int_sx ix) ^ "%nat " ^ coq_n (n_sx v) ^ " " ^ coq_n (n_sx act) ^ " = " ^ coq_lop (lop_sx o) ^ ")")
+     | "merkle.apply", [s; nd; h; r] ->
+         let node = mnode_sx nd in
+         Some ("bool_decide (mk_apply (tbl_hash (mk_tbl " ^ coq_merkle (merkle_sx s) ^ " ++ [(" ^ coq_n (hid h) ^ ", " ^ coq_mnode node ^ ")])) " ^ coq_merkle (merkle_sx s) ^ " " ^ coq_mnode node ^ " = Some " ^ coq_merkle (merkle_sx r) ^ ")")
+     | "merkle.merge", [s; o; r] ->
+         Some ("bool_decide (mk_merge (tbl_hash (mk_tbl " ^ coq_merkle (merkle_sx s) ^ " ++ mk_tbl " ^ coq_merkle (merkle_sx o) ^ ")) " ^ coq_merkle (merkle_sx s) ^ " " ^ coq_merkle (merkle_sx o) ^ " = Some " ^ coq_merkle (merkle_sx r) ^ ")")
+     | "serde", (A name :: s :: A "ok" :: j :: _) ->
+         let case dec codec v real = Some ("codec_case " ^ dec ^ " " ^ codec ^ " " ^ coq_json real ^ " " ^ v) in
+         (match name with
+          | "vclock" | "gcounter" -> case "vc_dec" "vclock_codec" (coq_vc (vc_sx s)) (json_sx j)
+          | "orswot" -> case "orswot_dec" "orswot_codec" (coq_orswot (orswot_sx s)) (json_sx j)
+          | "mvreg" -> case "mv_dec" "mvreg_codec" (coq_mv (mv_sx s)) (json_sx j)
+          | "mapmv" -> case "(cmap_dec mv_dec)" "codec_mapmv" (coq_cmap coq_mv (cmap_sx mv_inst s)) (json_sx j)
+          | "mapor" -> case "(cmap_dec orswot_dec)" "codec_mapor" (coq_cmap coq_orswot (cmap_sx or_inst s)) (json_sx j)
+          | "glist" -> case "glist_dec" "codec_glist" (coq_glist (glist_sx s)) (json_sx j)
+          | "list" -> case "clist_eq_dec" "codec_list" (coq_clist (clist_sx s)) (json_sx j)
+          | "merkle" -> case "merkle_dec" "merkle_codec" (coq_merkle (merkle_sx s)) (merkle_json_sx j)
+          | _ -> None)
      | "vclock.merge", [c; o; r] -> Some ("vc_eqb (vmerge " ^ coq_vc (vc_sx c) ^ " " ^ coq_vc (vc_sx o) ^ ") " ^ coq_vc (vc_sx r))
      | "vclock.reset", [c; o; r] -> Some ("vc_eqb (vreset " ^ coq_vc (vc_sx c) ^ " " ^ coq_vc (vc_sx o) ^ ") " ^ coq_vc (vc_sx r))
      | "vclock.glb", [c; o; r] -> Some ("vc_eqb (vglb " ^ coq_vc (vc_sx c) ^ " " ^ coq_vc (vc_sx o) ^ ") " ^ coq_vc (vc_sx r))
